@@ -257,7 +257,7 @@ def main():
                "EXT-VIOLATION); they are not claimed as property checks.  Every driver rotates the memory layout and the "
                "element type of the arrays handed to pyttb, and further property-specific presentations (magnitudes, scalar "
                "types, key forms, index offsets; DESIGN 12.7); pure operations are also checked for leaving their operands "
-               "unchanged.  318 seeded property-breaking changes with their verdicts are kept under seeded/ (DESIGN 12.6)."),
+               "unchanged.  338 seeded property-breaking changes with their verdicts are kept under seeded/ (DESIGN 12.6)."),
      "not_applicable": []
     }
     engines = {}
